@@ -74,6 +74,14 @@ func (t *runTarget) Evaluate(engine runner.Engine) error {
 		}
 	}
 
+	// A dependency the target no longer has (a deleted file that a glob used to match, a removed
+	// deps or sources entry) is a change as well. Every current dependency was found in the record
+	// above, so the record lists a former dependency exactly if it lists more than there are now.
+	if depsUpToDate && len(info.Dependencies) != len(depData) {
+		outOfDateDeps = append(outOfDateDeps, "(removed dependencies)")
+		depsUpToDate = false
+	}
+
 	// Check whether the target is up-to-date.
 	upToDate, reason, diff, err := t.target.upToDate()
 	if err != nil {
